@@ -256,6 +256,12 @@ class Registry(object):
         if sort in ("Val", "Opt"):
             self.need_val()
             return
+        if sort.startswith("(Array "):
+            for part in sort[7:-1].split():
+                if not part.startswith("("):
+                    self.need(part)
+            self.sorts.add(sort)
+            return
         self.usort(sort)
 
     def need_val(self):
